@@ -18,7 +18,7 @@ use crate::seq::Seq;
 use crate::world::*;
 use std::time::Duration;
 
-const DEADLINES_QUICK: [i32; 4] = [0, 9, 11, 60];
+const DEADLINES_QUICK: [i32; 5] = [0, 9, 11, 60, 601];
 const DEADLINES_ALL: [i32; 11] = [-5, 0, 1, 9, 10, 11, 17, 60, 600, 601, 3600];
 const KINDS: [&str; 3] = ["probe", "blocked", "stream"];
 
